@@ -281,22 +281,41 @@ theorem isPrefixDefinedChain_eq (chain : List Tree) (p : Nat) :
     simp only [isPrefixDefinedChain, allDecls_cons, List.lookup_append, containsKey_eq, ih]
     cases a.nsDecls.lookup p <;> simp
 
-/-! ### `prefix_for_namespace` -/
+/-! ### `namespace_prefix` (`prefix_for_namespace` is the instance `nonEmpty = false`) -/
 
-theorem pfnDecls_nil (ns : Nat) (seen : List Nat) : pfnDecls ns seen [] = .cont seen := rfl
+/-- May the loop return prefix `k`?  Not the empty prefix when `non_empty` is set. -/
+def pfnUsable (ne : Bool) (k : Nat) : Bool := !(ne && k == Env.emptyPrefix)
 
-theorem pfnDecls_cons_seen {ns : Nat} {seen : List Nat} {k v : Nat} {rest : List (Nat × Nat)}
-    (h : k ∈ seen) : pfnDecls ns seen ((k, v) :: rest) = pfnDecls ns seen rest := by
+@[simp] theorem pfnUsable_false (k : Nat) : pfnUsable false k = true := rfl
+
+theorem pfnUsable_true_iff (k : Nat) : pfnUsable true k = true ↔ k ≠ Env.emptyPrefix := by
+  simp [pfnUsable]
+
+theorem pfnDecls_nil (ns : Nat) (ne : Bool) (seen : List Nat) : pfnDecls ns ne seen [] = .cont seen := rfl
+
+theorem pfnDecls_cons_seen {ns : Nat} {ne : Bool} {seen : List Nat} {k v : Nat} {rest : List (Nat × Nat)}
+    (h : k ∈ seen) : pfnDecls ns ne seen ((k, v) :: rest) = pfnDecls ns ne seen rest := by
   simp [pfnDecls, h]
 
-theorem pfnDecls_cons_hit {ns : Nat} {seen : List Nat} {k v : Nat} {rest : List (Nat × Nat)}
-    (h : k ∉ seen) (hv : v = ns) : pfnDecls ns seen ((k, v) :: rest) = .ret (some k) := by
-  simp [pfnDecls, h, hv]
+theorem pfnDecls_cons_skip {ns : Nat} {ne : Bool} {seen : List Nat} {k v : Nat} {rest : List (Nat × Nat)}
+    (h : k ∉ seen) (hu : pfnUsable ne k = false) :
+    pfnDecls ns ne seen ((k, v) :: rest) = pfnDecls ns ne (k :: seen) rest := by
+  have hu' : (ne && k == Env.emptyPrefix) = true := by simpa [pfnUsable] using hu
+  simp only [pfnDecls, List.contains_eq_mem, h, decide_false, Bool.false_eq_true, ↓reduceIte, hu']
 
-theorem pfnDecls_cons_miss {ns : Nat} {seen : List Nat} {k v : Nat} {rest : List (Nat × Nat)}
+theorem pfnDecls_cons_hit {ns : Nat} {ne : Bool} {seen : List Nat} {k v : Nat} {rest : List (Nat × Nat)}
+    (h : k ∉ seen) (hu : pfnUsable ne k = true) (hv : v = ns) :
+    pfnDecls ns ne seen ((k, v) :: rest) = .ret (some k) := by
+  have hu' : (ne && k == Env.emptyPrefix) = false := by
+    cases h' : (ne && k == Env.emptyPrefix)
+    · rfl
+    · simp [pfnUsable, h'] at hu
+  simp [pfnDecls, h, hv, hu']
+
+theorem pfnDecls_cons_miss {ns : Nat} {ne : Bool} {seen : List Nat} {k v : Nat} {rest : List (Nat × Nat)}
     (h : k ∉ seen) (hv : v ≠ ns) :
-    pfnDecls ns seen ((k, v) :: rest) = pfnDecls ns (k :: seen) rest := by
-  simp [pfnDecls, h, hv]
+    pfnDecls ns ne seen ((k, v) :: rest) = pfnDecls ns ne (k :: seen) rest := by
+  cases hu : (ne && k == Env.emptyPrefix) <;> simp [pfnDecls, h, hv, hu]
 
 /-- The result of a loop that ran to its end without returning is `None`. -/
 def pfnResult : PfnStep → Option Nat
@@ -309,8 +328,9 @@ def pfnThen (s : PfnStep) (f : List Nat → PfnStep) : PfnStep :=
   | .ret r => .ret r
   | .cont seen => f seen
 
-theorem pfnDecls_append (ns : Nat) (l1 l2 : List (Nat × Nat)) : ∀ (seen : List Nat),
-    pfnDecls ns seen (l1 ++ l2) = pfnThen (pfnDecls ns seen l1) (fun s => pfnDecls ns s l2) := by
+theorem pfnDecls_append (ns : Nat) (ne : Bool) (l1 l2 : List (Nat × Nat)) : ∀ (seen : List Nat),
+    pfnDecls ns ne seen (l1 ++ l2) =
+      pfnThen (pfnDecls ns ne seen l1) (fun s => pfnDecls ns ne s l2) := by
   induction l1 with
   | nil => intro seen; simp [pfnDecls_nil, pfnThen]
   | cons d rest ih =>
@@ -318,28 +338,37 @@ theorem pfnDecls_append (ns : Nat) (l1 l2 : List (Nat × Nat)) : ∀ (seen : Lis
     intro seen
     by_cases h : k ∈ seen
     · simp only [List.cons_append, pfnDecls_cons_seen h, ih]
-    · by_cases hv : v = ns
-      · simp [pfnDecls_cons_hit h hv, pfnThen]
-      · simp only [List.cons_append, pfnDecls_cons_miss h hv, ih]
+    · cases hu : pfnUsable ne k with
+      | false => simp only [List.cons_append, pfnDecls_cons_skip h hu, ih]
+      | true =>
+        by_cases hv : v = ns
+        · simp [pfnDecls_cons_hit h hu hv, pfnThen]
+        · simp only [List.cons_append, pfnDecls_cons_miss h hv, ih]
 
-/-- `prefix_for_namespace` is one pass over `allDecls`. -/
-theorem pfnChain_eq (ns : Nat) (chain : List Tree) : ∀ (seen : List Nat),
-    pfnChain ns seen chain = pfnResult (pfnDecls ns seen (allDecls chain)) := by
+/-- `namespace_prefix` is one pass over `allDecls`. -/
+theorem pfnChain_eq (ns : Nat) (ne : Bool) (chain : List Tree) : ∀ (seen : List Nat),
+    pfnChain ns ne seen chain = pfnResult (pfnDecls ns ne seen (allDecls chain)) := by
   induction chain with
   | nil =>
     intro seen
     simp only [pfnChain, allDecls_nil]
-    cases pfnDecls ns seen basePrefixes <;> rfl
+    cases pfnDecls ns ne seen basePrefixes <;> rfl
   | cons a rest ih =>
     intro seen
     simp only [pfnChain, allDecls_cons, pfnDecls_append]
-    cases pfnDecls ns seen a.nsDecls with
+    cases pfnDecls ns ne seen a.nsDecls with
     | ret r => rfl
     | cont s => simp only [pfnThen, ih]
 
-/-- Soundness: a returned prefix was not seen before and its first declaration binds it to `ns`. -/
-theorem pfnDecls_sound (ns : Nat) (l : List (Nat × Nat)) : ∀ (seen : List Nat) (p : Nat),
-    pfnDecls ns seen l = .ret (some p) → p ∉ seen ∧ l.lookup p = some ns := by
+theorem namespacePrefixChain_eq (chain : List Tree) (ns : Nat) (ne : Bool) :
+    namespacePrefixChain chain ns ne = pfnResult (pfnDecls ns ne [] (allDecls chain)) :=
+  pfnChain_eq ns ne chain []
+
+/-- Soundness: a returned prefix was not seen before, its first declaration binds it to `ns`,
+    and it is not the empty prefix when `non_empty` is set. -/
+theorem pfnDecls_sound (ns : Nat) (ne : Bool) (l : List (Nat × Nat)) : ∀ (seen : List Nat) (p : Nat),
+    pfnDecls ns ne seen l = .ret (some p) →
+      p ∉ seen ∧ l.lookup p = some ns ∧ pfnUsable ne p = true := by
   induction l with
   | nil => intro seen p h; simp [pfnDecls_nil] at h
   | cons d rest ih =>
@@ -347,48 +376,81 @@ theorem pfnDecls_sound (ns : Nat) (l : List (Nat × Nat)) : ∀ (seen : List Nat
     intro seen p h
     by_cases hk : k ∈ seen
     · rw [pfnDecls_cons_seen hk] at h
-      obtain ⟨h1, h2⟩ := ih _ _ h
+      obtain ⟨h1, h2, h3⟩ := ih _ _ h
       have : (p == k) = false := by
         have : p ≠ k := fun hpk => h1 (hpk ▸ hk)
         simpa using this
-      exact ⟨h1, by simp [List.lookup_cons, this, h2]⟩
-    · by_cases hv : v = ns
-      · rw [pfnDecls_cons_hit hk hv] at h
-        simp only [PfnStep.ret.injEq, Option.some.injEq] at h
-        subst h; subst hv
-        exact ⟨hk, by simp⟩
-      · rw [pfnDecls_cons_miss hk hv] at h
-        obtain ⟨h1, h2⟩ := ih _ _ h
+      exact ⟨h1, by simp [List.lookup_cons, this, h2], h3⟩
+    · have hrec : pfnDecls ns ne (k :: seen) rest = .ret (some p) →
+          p ∉ seen ∧ List.lookup p ((k, v) :: rest) = some ns ∧ pfnUsable ne p = true := by
+        intro h
+        obtain ⟨h1, h2, h3⟩ := ih _ _ h
         simp only [List.mem_cons, not_or] at h1
         have : (p == k) = false := by simpa using h1.1
-        exact ⟨h1.2, by simp [List.lookup_cons, this, h2]⟩
+        exact ⟨h1.2, by simp [List.lookup_cons, this, h2], h3⟩
+      cases hu : pfnUsable ne k with
+      | false => rw [pfnDecls_cons_skip hk hu] at h; exact hrec h
+      | true =>
+        by_cases hv : v = ns
+        · rw [pfnDecls_cons_hit hk hu hv] at h
+          simp only [PfnStep.ret.injEq, Option.some.injEq] at h
+          subst h; subst hv
+          exact ⟨hk, by simp, hu⟩
+        · rw [pfnDecls_cons_miss hk hv] at h; exact hrec h
 
-/-- Completeness: a prefix not seen before whose first declaration binds it to `ns` makes the
-    loop return some prefix (shadowed prefixes are skipped, not fatal). -/
-theorem pfnDecls_complete (ns : Nat) (l : List (Nat × Nat)) : ∀ (seen : List Nat),
-    (∃ p, p ∉ seen ∧ l.lookup p = some ns) → ∃ q, pfnDecls ns seen l = .ret (some q) := by
+/-- Completeness: a usable prefix not seen before whose first declaration binds it to `ns` makes
+    the loop return some prefix (shadowed prefixes are skipped, not fatal). -/
+theorem pfnDecls_complete (ns : Nat) (ne : Bool) (l : List (Nat × Nat)) : ∀ (seen : List Nat),
+    (∃ p, p ∉ seen ∧ l.lookup p = some ns ∧ pfnUsable ne p = true) →
+      ∃ q, pfnDecls ns ne seen l = .ret (some q) := by
   induction l with
   | nil => intro seen h; simp at h
   | cons d rest ih =>
     obtain ⟨k, v⟩ := d
-    intro seen ⟨p, hp, hl⟩
+    intro seen ⟨p, hp, hl, hpu⟩
     by_cases hk : k ∈ seen
     · rw [pfnDecls_cons_seen hk]
       have hpk : (p == k) = false := by
         have : p ≠ k := fun h => hp (h ▸ hk)
         simpa using this
       simp only [List.lookup_cons, hpk] at hl
-      exact ih seen ⟨p, hp, hl⟩
-    · by_cases hv : v = ns
-      · exact ⟨k, pfnDecls_cons_hit hk hv⟩
-      · rw [pfnDecls_cons_miss hk hv]
-        by_cases hpk : p = k
-        · subst hpk
-          simp only [List.lookup_cons_self, Option.some.injEq] at hl
-          exact absurd hl hv
-        · have hb : (p == k) = false := by simpa using hpk
-          simp only [List.lookup_cons, hb] at hl
-          exact ih (k :: seen) ⟨p, by simp [hpk, hp], hl⟩
+      exact ih seen ⟨p, hp, hl, hpu⟩
+    · cases hu : pfnUsable ne k with
+      | false =>
+        rw [pfnDecls_cons_skip hk hu]
+        have hpk : p ≠ k := fun h => by rw [h, hu] at hpu; exact Bool.false_ne_true hpu
+        have hb : (p == k) = false := by simpa using hpk
+        simp only [List.lookup_cons, hb] at hl
+        exact ih (k :: seen) ⟨p, by simp [hpk, hp], hl, hpu⟩
+      | true =>
+        by_cases hv : v = ns
+        · exact ⟨k, pfnDecls_cons_hit hk hu hv⟩
+        · rw [pfnDecls_cons_miss hk hv]
+          by_cases hpk : p = k
+          · subst hpk
+            simp only [List.lookup_cons_self, Option.some.injEq] at hl
+            exact absurd hl hv
+          · have hb : (p == k) = false := by simpa using hpk
+            simp only [List.lookup_cons, hb] at hl
+            exact ih (k :: seen) ⟨p, by simp [hpk, hp], hl, hpu⟩
+
+/-- The loop never returns `Some`-less: `.ret none` does not occur. -/
+theorem pfnDecls_ret_some (ns : Nat) (ne : Bool) (l : List (Nat × Nat)) : ∀ (seen : List Nat) (r : Option Nat),
+    pfnDecls ns ne seen l = .ret r → ∃ p, r = some p := by
+  induction l with
+  | nil => intro seen r h; simp [pfnDecls_nil] at h
+  | cons d rest ih =>
+    obtain ⟨k, v⟩ := d
+    intro seen r h
+    by_cases hk : k ∈ seen
+    · rw [pfnDecls_cons_seen hk] at h; exact ih _ _ h
+    · cases hu : pfnUsable ne k with
+      | false => rw [pfnDecls_cons_skip hk hu] at h; exact ih _ _ h
+      | true =>
+        by_cases hv : v = ns
+        · rw [pfnDecls_cons_hit hk hu hv] at h
+          exact ⟨k, by simpa using h.symm⟩
+        · rw [pfnDecls_cons_miss hk hv] at h; exact ih _ _ h
 
 /-! ### Facts about the specification -/
 
@@ -469,32 +531,5 @@ theorem ancestorsOrSelf_head : ∀ (path : Path) (t : Tree) (chain : List Tree),
       cases c with
       | nil => exact absurd rfl h2
       | cons a r => simpa using h1
-
-/-- What an `Ok(prefix)` of `name_ref` / `RefName::from_node` means. -/
-theorem nameRefChain_ok {env : Env} {chain : List Tree} {name p : Nat}
-    (h : nameRefChain env chain name = .ok p) :
-    (env.nsOfName name = Env.noNamespace ∧ p = Env.emptyPrefix) ∨
-    (env.nsOfName name ≠ Env.noNamespace ∧
-      scopeSpecChain chain p = some (env.nsOfName name)) := by
-  unfold nameRefChain at h
-  by_cases hns : env.nsOfName name = Env.noNamespace
-  · simp only [hns, bne_self_eq_false, Bool.false_eq_true, ↓reduceIte, Except.ok.injEq] at h
-    exact .inl ⟨hns, h.symm⟩
-  · have h2 : (env.nsOfName name != Env.noNamespace) = true := by simpa [bne] using hns
-    simp only [h2, ↓reduceIte] at h
-    refine .inr ⟨hns, ?_⟩
-    cases hp : prefixForNamespaceChain chain (env.nsOfName name) with
-    | none => simp [hp] at h
-    | some q =>
-      simp only [hp, Except.ok.injEq] at h
-      subst h
-      unfold prefixForNamespaceChain at hp
-      rw [pfnChain_eq] at hp
-      cases hd : pfnDecls (env.nsOfName name) [] (allDecls chain) with
-      | cont s => simp [hd, pfnResult] at hp
-      | ret r =>
-        simp only [hd, pfnResult] at hp
-        subst hp
-        exact scopeSpecChain_of_lookup (pfnDecls_sound _ _ _ _ hd).2 hns
 
 end XotModel
